@@ -47,6 +47,16 @@ EVIDENCE = dict(
 )
 
 
+def dedupe(cases):
+    seen, out = set(), []
+    for c in cases:
+        k = vlib.json.dumps(c, sort_keys=True)
+        if k not in seen:
+            seen.add(k)
+            out.append(c)
+    return out
+
+
 def run(ctx):
     q = ctx.tier == "quick"
     # R1: the RFC 4180 lemma Read(Write(rows)) = rows, negative control: a writer that
@@ -70,7 +80,7 @@ def run(ctx):
     exp = ctx.tlc("ExportMC", "Export_mc_quick.cfg" if q else "Export_mc_thorough.cfg", workers=8,
                   collect=True, timeout=3000, jvm="-Xmx12g" if not q else None)
     ctx.tlc("ExportMC", "Export_mc_impl.cfg", expect_violation=True)
-    cases = exp["cases"]
+    cases = dedupe(exp["cases"])
     if not cases:
         raise vlib.MachineryError("ExportMC emitted no cases")
     ctx.exhaustive = True
